@@ -631,6 +631,74 @@ func (sl *slicer) visitCall(c *ssa.Call, idx int, ctx *frame) {
 	for _, a := range Args(c) {
 		sl.visit(a, ctx)
 	}
+	// state of the receiver object: what earlier calls fed into it
+	// (hash.Write before hash.Sum; io.Copy into a MultiWriter over the hasher)
+	if args := Args(c); len(args) > 0 && (c.Call.IsInvoke() || c.Call.Signature().Recv() != nil) {
+		sl.visitContributors(args[0], c, ctx, 0)
+	}
+}
+
+// visitContributors follows what other calls put into a stateful object o
+// (writer, hasher, buffer): the arguments of calls that have o as receiver or
+// argument, and — when such a call returns a wrapper around o — of calls on the
+// wrapper.
+func (sl *slicer) visitContributors(o ssa.Value, except ssa.Instruction, ctx *frame, depth int) {
+	if depth > 2 || o == nil {
+		return
+	}
+	switch o.(type) {
+	case *ssa.Const, *ssa.Global, *ssa.Function:
+		return
+	}
+	if !isStatefulType(o.Type()) {
+		return
+	}
+	refs := o.Referrers()
+	if refs == nil {
+		return
+	}
+	for _, r := range *refs {
+		ci, ok := r.(ssa.CallInstruction)
+		if !ok || r == except {
+			continue
+		}
+		k := visitKey{v: o, ctx: ctx}
+		_ = k
+		uses := false
+		for _, a := range Args(ci) {
+			if a == o {
+				uses = true
+			}
+		}
+		if !uses {
+			continue
+		}
+		if sl.s.Calls[ci] {
+			continue
+		}
+		sl.s.Calls[ci] = true
+		sl.s.leaf("feeds:"+sl.s.p.CalleeName(ci), nil)
+		for _, a := range Args(ci) {
+			if a != o {
+				sl.visit(a, ctx)
+			}
+		}
+		if v, ok := ci.(*ssa.Call); ok && v.Type() != nil {
+			if _, isTuple := v.Type().(*types.Tuple); !isTuple {
+				sl.visitContributors(v, ci, ctx, depth+1)
+			}
+		}
+	}
+}
+
+// isStatefulType: interfaces and pointers (objects with identity), not plain
+// values, strings or slices.
+func isStatefulType(t types.Type) bool {
+	switch t.Underlying().(type) {
+	case *types.Interface, *types.Pointer:
+		return true
+	}
+	return false
 }
 
 func inStack(ctx *frame, fn *ssa.Function) bool {
